@@ -280,6 +280,11 @@ func predict(spec *clientSpec, b *bServer) string {
 				return "compatible"
 			}
 		} else {
+			if next.wrapped && next.maxTries <= 0 {
+				// "If maxTries is <= 0, will retry indefinitely": the client never
+				// moves on; the server ends the connection (attempt limits)
+				return "incompatible"
+			}
 			tried[next.name] = true
 		}
 	}
@@ -341,7 +346,7 @@ func genB(r *rand.Rand, i int64) (*clientSpec, *bServer) {
 			need[mname] = true
 			if mname == "publickey" {
 				k := decoys[si] // a different identity per step
-				sg := randomSigner(r, k, 0.35)
+				sg := randomSigner(r, k, 0.35, false)
 				if sg.cert {
 					st.trustCA = true
 				} else {
@@ -388,7 +393,7 @@ func genB(r *rand.Rand, i int64) (*clientSpec, *bServer) {
 			if r.IntN(2) == 0 { // decoy identities the server does not know
 				for _, k := range decoys[3:] {
 					if r.IntN(2) == 0 {
-						pm.signers = append(pm.signers, randomSigner(r, k, 0.3))
+						pm.signers = append(pm.signers, randomSigner(r, k, 0.3, false))
 					}
 				}
 			}
@@ -553,7 +558,7 @@ func runSetupB(m *mon.M) {
 			sc2.Close()
 		}()
 		var cliErr error
-		done, pv, pstack, dump := mon.RunTimed(60*time.Second, func() {
+		done, pv, pstack, dump := mon.RunTimed(120*time.Second, func() {
 			var conn ssh.Conn
 			var err error
 			if tapped {
